@@ -98,7 +98,7 @@ def gen(seed: int, tier: str) -> dict[str, Any]:
         "first_channel": rng.choice([1, 7, 254]),
     }
     return {"seed": seed, "tier": "S" if cfg["batch"] == 1 else "P", "config": cfg, "ops": ops,
-            "gw": {"ack": acks}, "fault_policy": policy}
+            "gw": {"ack": acks, "first_channel": rng.choice([1, 1, 0, 254, 255])}, "fault_policy": policy}
 
 
 def run(plan: dict[str, Any]) -> dict[str, Any]:
